@@ -3,4 +3,5 @@ import Driver
 def main (args : List String) : IO UInt32 := do
   match args with
   | ["ring"] => Driver.RingC.main; return 0
+  | ["pool"] => Driver.PoolC.main; return 0
   | _ => IO.eprintln "usage: kcpdriver <component>"; return 2
